@@ -2355,6 +2355,23 @@ def c11_caller_objects(m, o):
                 viol.append("caller-objects (%s): %s gives S(end) = %.6f, a fresh object with those values %.6f"
                             % ("model.run" if via_model else "runner.run", what, float(got[-1][0]), float(want[-1][0])))
                 break
+    # the solver options dictionary changed in place between two runs: the second run uses the new options
+    sa = {"rtol": 1e-2, "atol": 1e-2}
+    a = build()
+    p0 = {"contact": {"rate": 0.5}, "rates": np.array([0.1, 0.05])}
+    try:
+        a.run(p0, solver="solve_ivp", solver_args=sa, jit=False)
+        sa["rtol"] = sa["atol"] = 1e-9
+        a.run(p0, solver="solve_ivp", solver_args=sa, jit=False)
+        got = np.asarray(a.outputs).copy()
+        f = build()
+        f.run(p0, solver="solve_ivp", solver_args={"rtol": 1e-9, "atol": 1e-9}, jit=False)
+        checks += 1
+        if not np.array_equal(got, np.asarray(f.outputs)):
+            viol.append("caller-objects (solver options): after solver_args was changed in place from 1e-2 to 1e-9 the second run "
+                        "of the object differs from a fresh object run with 1e-9 by %.3g" % float(np.abs(got - np.asarray(f.outputs)).max()))
+    except Exception as e:  # noqa
+        viol.append("caller-objects (solver options): %s" % repr(e)[:100])
     return {"checks": checks, "violations": viol}
 
 
